@@ -101,15 +101,15 @@ def poke_case(rep, prop, case):
     stmts, loop_ix = poke_slice()
     q = S.poke.__qualname__
     op, nvals, paged, cstep = case
-    name = 'skoolkit.snapshot.poke[kernel; op=%r, %d address field(s)%s, %s]' % (op, nvals, '' if cstep is None else ' step=%d' % cstep, 'bank-prefixed' if paged else 'unpaged')
+    name = 'skoolkit.snapshot.poke[kernel; op=%r, %d address field(s)%s, %s]' % (op, nvals, '' if cstep is None else ' step symbolic (1..65535)' if cstep == 'sym' else ' step=%d' % cstep, 'bank-prefixed' if paged else 'unpaged')
 
     def start(eng, op=op, nvals=nvals, paged=paged, cstep=cstep):
         p = eng.path
         p.v = SV(z3.BitVec('value', W), 0, 255)
         p.a1 = SV(z3.BitVec('addr1', W), 0, 65535)
         p.a2 = SV(z3.BitVec('addr2', W), 0, 65535)
-        p.st = cstep if cstep is not None else 1
-        for x in (p.v, p.a1, p.a2):
+        p.st = SV(z3.BitVec('step', W), 1, 65535) if cstep == 'sym' else cstep if cstep is not None else 1
+        for x in (p.v, p.a1, p.a2) + ((p.st,) if cstep == 'sym' else ()):
             p.facts.append(z3.And(x.t >= x.lo, x.t <= x.hi))
         values = [p.a1, p.a2, p.st][:nvals]
         p.lo = p.a1
